@@ -839,7 +839,8 @@ pub fn call<'a>(it: &mut Interp<'a>, name: &'static str, pos: Vec<Th<'a>>, named
 			let o = want_obj(&arg!(0), name)?;
 			let k = want_str(&arg!(1), name)?;
 			let mut layers = o.layers.clone();
-			layers.push(Rc::new(Layer::Mask(k.to_string())));
+			let span = layers.len();
+			layers.push(Rc::new(Layer::Mask(k.to_string(), span)));
 			Ok(Val::Obj(ObjVal::new(layers)))
 		}
 		"get" => {
